@@ -207,7 +207,7 @@ class VFSZip(VFS_Real):
                         {
                             "dirlevel": dirlevel,
                             "filename": filename_,
-                            "pathname": info.filename,
+                            "pathname": filename,
                             "dest": self._readlinkfspath(info.filename),
                         }
                     )
